@@ -63,7 +63,9 @@ type chSys struct {
 	assign []string // current assignment ("" = absent)
 }
 
-func newChSys(r *vrt.Run, kind string, keys []any) *chSys { return newChSysReplicas(r, kind, keys, 100) }
+func newChSys(r *vrt.Run, kind string, keys []any) *chSys {
+	return newChSysReplicas(r, kind, keys, 100)
+}
 
 func newChSysReplicas(r *vrt.Run, kind string, keys []any, base int) *chSys {
 	s := &chSys{r: r, kind: kind, model: map[string]int{}, keys: keys, base: base}
@@ -350,6 +352,66 @@ func TestVerifConsistentHash(t *testing.T) {
 				}
 			}
 			return vrt.Step{Canon: s.canon()}
+		})
+	}
+}
+
+// Lookups running at the same time (they share the ring under a read lock): each returns the
+// node it returns on its own while membership is unchanged.
+func TestVerifConsistentHashConcurrentLookups(t *testing.T) {
+	defer vrt.WriteReport()
+	if !vrt.Shard(0) {
+		return
+	}
+	bound := 2
+	if vrt.Thorough() {
+		bound = 3
+	}
+	for _, threads := range []int{2, 3} {
+		threads := threads
+		vrt.Explore(vrt.Options{Name: fmt.Sprintf("consistenthash/concurrent-lookups/threads=%d", threads), Bound: bound, Prune: true, Budget: vrt.FairBudget(1)}, func(r *vrt.Run) {
+			h := NewConsistentHash()
+			for _, n := range []string{"A", "B", "C"} {
+				h.Add(n)
+			}
+			// keys that live on different nodes
+			var keys []string
+			seen := map[any]bool{}
+			for i := 0; len(keys) < threads && i < 1000; i++ {
+				k := fmt.Sprintf("key-%d", i)
+				if n, ok := h.Get(k); ok && !seen[n] {
+					seen[n] = true
+					keys = append(keys, k)
+				}
+			}
+			if len(keys) < 2 {
+				r.Failf("setup: no two keys on different nodes")
+				return
+			}
+			for len(keys) < threads {
+				keys = append(keys, keys[0]+"x")
+			}
+			alone := make([]any, threads)
+			for i, k := range keys {
+				alone[i], _ = h.Get(k)
+			}
+			got := make([]any, threads)
+			var wg vrt.WaitGroup
+			for i := range keys {
+				i := i
+				wg.Add(1)
+				vrt.Go(func() {
+					defer wg.Done()
+					got[i], _ = h.Get(keys[i])
+				})
+			}
+			wg.Wait()
+			r.Outcome("%v", got)
+			for i := range keys {
+				if got[i] != alone[i] {
+					r.Failf("Get(%s) concurrent with %d other lookups returned %v; on its own (same membership) it returns %v", keys[i], threads-1, got[i], alone[i])
+				}
+			}
 		})
 	}
 }
